@@ -41,11 +41,11 @@ func (Engine) Meta() simrt.Meta {
 			"Go toolchain; layout engine positions (R-pos) are right - enforced per variant by an independent tokenizer written from docs/5-definitions.md (a disagreement is exit 2, not a verdict)",
 			"the baseline layout (single spaces, every semicolon, final newline, shorter than one buffer half) is the reference reading of the token sequence",
 			"buffer half size is read from the tree (lexer.bufferSize via export overlay), not mirrored",
-			"reader behaves like a regular file (full reads, then 0/io.EOF); short-read/zero-read chunkings are outside C13 and exercised under C14",
+			"the delivery cases hand out the same bytes in other chunkings (short reads, zero-length reads, last chunk with io.EOF - all allowed by the io.Reader contract); read ERRORS are C14's matter",
 		},
 		RealCode:    []string{"internal/ebnf/lexer", "internal/ebnf/parser", "internal/ebnf/parser/spec (Parse)", "internal/ebnf/parser/ast (Parse)", "moorara/algo lexer/input (two-half buffer), symboltable, grammar, parser/lr"},
-		Stubs:       []string{"io.Reader (SimReader: full mode, end of file placed at a chosen byte)"},
-		FaultKinds:  []string{"eof_inside_or_after_last_token", "eof_on_half_boundary", "refill_crossings", "retract_across_boundary"},
+		Stubs:       []string{"io.Reader (SimReader: regular-file mode or a benign delivery schedule, end of file placed at a chosen byte)"},
+		FaultKinds:  []string{"eof_inside_or_after_last_token", "eof_on_half_boundary", "refill_crossings", "retract_across_boundary", "delivery_short_reads", "delivery_zero_length_reads", "delivery_data_with_eof"},
 		CaseTimeout: 300 * time.Second,
 	}
 }
@@ -58,6 +58,7 @@ const (
 	kEOF
 	kFixture
 	kPosSweep // small leading paddings 0..130 on specifications whose diagnostics carry positions
+	kDelivery // random layouts read through a benign delivery schedule (short chunks, zero-length reads, data with io.EOF)
 )
 
 var fixtures = []string{"ebnf.grammar", "pascal.grammar", "test.success.grammar", "test.invalid.grammar", "test.error.grammar"}
@@ -84,6 +85,13 @@ func (e Engine) Plan(tier string, seed uint64) []simrt.Case {
 	}
 	for f := range fixtures {
 		add(simrt.Mix(seed, 13, 4, uint64(f)), "fixture:"+fixtures[f], kFixture, f)
+	}
+	nDel := 16
+	if tier == "thorough" {
+		nDel = 200
+	}
+	for i := 0; i < nDel; i++ {
+		add(simrt.Mix(seed, 13, 6, uint64(i)), "delivery", kDelivery)
 	}
 	nPos := 8
 	if tier == "thorough" {
@@ -183,14 +191,14 @@ func canonAST(g *ast.Grammar, lay *gen.Layout) string {
 
 type readerProbe struct{ calls int }
 
-func evaluate(lay *gen.Layout) (o outcome, calls int) {
+func evaluate(lay *gen.Layout, plan simrt.ReadPlan) (o outcome, calls int) {
 	func() {
 		defer func() {
 			if r := recover(); r != nil {
 				o.spec = fmt.Sprintf("PANIC %v", r)
 			}
 		}()
-		rd := simrt.NewSimReader(lay.Text, simrt.FullPlan())
+		rd := simrt.NewSimReader(lay.Text, plan)
 		sp, err := spec.Parse(filename, rd)
 		calls = rd.Calls
 		switch {
@@ -210,7 +218,7 @@ func evaluate(lay *gen.Layout) (o outcome, calls int) {
 				o.ast = fmt.Sprintf("PANIC %v", r)
 			}
 		}()
-		g, err := ast.Parse(filename, simrt.NewSimReader(lay.Text, simrt.FullPlan()))
+		g, err := ast.Parse(filename, simrt.NewSimReader(lay.Text, plan))
 		switch {
 		case err != nil:
 			o.ast = canonErr(err, lay)
@@ -255,6 +263,7 @@ type runner struct {
 	base outcome
 	B    int
 	n    int
+	plan *simrt.ReadPlan // nil: regular file; otherwise the benign delivery schedule of the next variant
 }
 
 // check evaluates one variant against the baseline. It returns false once a violation is recorded.
@@ -263,10 +272,17 @@ func (r *runner) check(st gen.Style, note string) bool {
 	if err := lay.Check(r.s); err != nil {
 		panic(fmt.Sprintf("layout self-check failed (harness bug): %v\nstyle=%+v", err, st))
 	}
-	got, calls := evaluate(lay)
+	plan := simrt.FullPlan()
+	if r.plan != nil {
+		plan = *r.plan
+		note += "; delivered as " + plan.String()
+	}
+	got, calls := evaluate(lay, plan)
 	r.res.Evals++
 	r.n++
-	r.res.Count("refill_crossings", max(0, calls-2))
+	if r.plan == nil {
+		r.res.Count("refill_crossings", max(0, calls-2))
+	}
 	if got == r.base {
 		return true
 	}
@@ -301,6 +317,9 @@ func (r *runner) check(st gen.Style, note string) bool {
 	}
 	if len(sigs) > 0 {
 		class += "[" + strings.Join(sigs, ",") + "]"
+	}
+	if r.plan != nil {
+		class += "[delivery]"
 	}
 	r.res.Fail(class, "%s on the re-laid-out text (%s; %d bytes, B=%d) differs from the baseline.\n--- baseline ---\n%s\n--- variant ---\n%s\n--- diff ---\n%s",
 		which, note, len(lay.Text), r.B, clip(want), clip(have), firstDiff(want, have))
@@ -371,7 +390,7 @@ func (e Engine) Run(t *simrt.Tape, c simrt.Case, x *simrt.Ctx) *simrt.Result {
 		res.Skipped++
 		return res
 	}
-	base, _ := evaluate(baseLay)
+	base, _ := evaluate(baseLay, simrt.FullPlan())
 	res.Evals++
 	r := &runner{res: res, x: x, s: s, base: base, B: B}
 	x.Tracef("mode=%s baseline (%d bytes): %q", s.Mode, len(baseLay.Text), string(baseLay.Text))
@@ -416,6 +435,48 @@ func (e Engine) Run(t *simrt.Tape, c simrt.Case, x *simrt.Ctx) *simrt.Result {
 				res.Key("style", st.FinalNL, st.PadKind, st.Tight, st.DropSemis, (st.LeadPad+st.MidPad)/512, st.MidPad > 0)
 			}
 		}
+
+	case kDelivery:
+		// The same bytes through a reader that behaves like a pipe: the token sequence is unchanged, so
+		// is everything derived from it. (An injected read ERROR is C14's matter.)
+		for i := 0; i < 16; i++ {
+			st := gen.Style{
+				SepSeed: uint64(t.Draw(1 << 30)), DropSemis: t.Chance(1, 3), FinalNL: t.Draw(4),
+				LeadPad: padTarget(), PadKind: t.Draw(5), Tight: t.Chance(1, 4),
+			}
+			plan := simrt.FullPlan()
+			switch t.Draw(4) {
+			case 0:
+				plan.Short, plan.MaxChunk = true, []int{1, 2, 3, 7}[t.Draw(4)]
+			case 1:
+				plan.Short, plan.MaxChunk = true, []int{64, 100, 1000, B / 2}[t.Draw(4)]
+			case 2:
+				plan.Short, plan.MaxChunk = true, []int{B - 1, B, B + 1, 3 * B}[t.Draw(4)]
+			}
+			plan.ChunkSeed = uint64(t.Draw(1 << 30))
+			for n := t.Draw(4); n > 0; n-- {
+				plan.ZeroCalls = append(plan.ZeroCalls, t.Draw(12))
+			}
+			plan.DataEOF = t.Chance(1, 2)
+			if !plan.Short && len(plan.ZeroCalls) == 0 && !plan.DataEOF {
+				plan.Short, plan.MaxChunk = true, 5
+			}
+			r.plan = &plan
+			if !r.check(st, fmt.Sprintf("random layout %d", i)) {
+				return res
+			}
+			res.Key("delivery", plan.Kind(), plan.MaxChunk, len(plan.ZeroCalls), st.LeadPad/1024)
+			if plan.Short {
+				res.Count("delivery_short_reads", 1)
+			}
+			if len(plan.ZeroCalls) > 0 {
+				res.Count("delivery_zero_length_reads", 1)
+			}
+			if plan.DataEOF {
+				res.Count("delivery_data_with_eof", 1)
+			}
+		}
+		r.plan = nil
 
 	case kAligned:
 		// one fixed re-spaced layout; its lexemes are aligned against boundary k*B by solving the padding
